@@ -4,7 +4,6 @@ import (
 	"bytes"
 	"fmt"
 	"io"
-	"net"
 	"sync"
 	"testing"
 	"testing/synctest"
@@ -517,5 +516,3 @@ func TestTLSFlipExhaustive(t *testing.T) {
 	pairs := hx.Pick([][2]string{{"ed25519", "ed25519"}}, [][2]string{{"ed25519", "ed25519"}, {"rsa", "ecdsa"}, {"secp256k1", "rsa"}, {"ecdsa", "secp256k1"}})
 	flipExhaustive(t, pTLS, pairs, []byte{0x01})
 }
-
-var _ net.Conn = (*memnet.Conn)(nil)
